@@ -21,7 +21,8 @@ import sys
 import time
 
 VERIF = os.path.dirname(os.path.dirname(os.path.abspath(__file__)))
-COQ = os.path.join(VERIF, "coq")
+COQ_SRC = os.path.join(VERIF, "coq")
+COQ = COQ_SRC
 BUILD = os.path.join(VERIF, ".build")
 REPO = os.path.abspath(os.environ.get("VERIF_REPO", "/repo"))
 GUARD = "nitrogql_verif"
@@ -43,6 +44,9 @@ else:
     CASES = os.path.join(_alt, "cases")
     EVID = os.path.join(_alt, "evidence")
     REPLAYS = os.path.join(_alt, "replays")
+    # a private copy of the Coq development (sources and compiled files), so that translators which
+    # regenerate coq/Gen/*.v from the scratch worktree never disturb the shared tree
+    COQ = os.path.join(_alt, "coq")
 CARGO_ENV = dict(os.environ, CARGO_NET_OFFLINE="true", RUSTFLAGS="--cfg " + GUARD, CARGO_TARGET_DIR=TARGET)
 
 
@@ -108,6 +112,20 @@ def load_known_findings():
 
 
 # ---------------------------------------------------------------- Coq side
+
+def _prepare_alt_coq():
+    if COQ == COQ_SRC:
+        return
+    os.makedirs(COQ, exist_ok=True)
+    rc, out = sh(["rsync", "-a", "--delete", "--exclude", ".lia.cache", COQ_SRC + "/", COQ + "/"])
+    if rc != 0:
+        raise RuntimeError("cannot mirror the Coq development: " + out[-500:])
+
+
+def gen_root():
+    """directory whose `coq/Gen` the translators write to (for translators that take the /verif root)"""
+    return os.path.dirname(COQ)
+
 
 def coq_makefile():
     mk = os.path.join(COQ, "Makefile")
@@ -383,6 +401,7 @@ def standard_check(ctx, *, targets, pinned, binname, gen=None, classify=None, se
     ctx.assumptions = list(assumptions)
     ctx.checker_cmd = "cd coq && make -j16 %s && coqc -Q . V %s  (then coqc on generated case files)" % (" ".join(targets), pinned)
     proof_ok = True
+    _prepare_alt_coq()
     if gen:
         try:
             gen(ctx)
